@@ -1,0 +1,13 @@
+//go:build verif
+
+package consensus
+
+import "go.sia.tech/core/types"
+
+// Verification hooks for storage-proof verification (property C07, proof part of
+// the /verif framework). Re-exports only; compiled only with `-tags verif`.
+
+// VerifStorageProofRoot calls storageProofRoot (consensus/merkle.go).
+func VerifStorageProofRoot(leafHash types.Hash256, leafIndex uint64, filesize uint64, proof []types.Hash256) types.Hash256 {
+	return storageProofRoot(leafHash, leafIndex, filesize, proof)
+}
